@@ -25,3 +25,13 @@ def shrink(items, positions):
     indexes = [i for i, x in enumerate(items) if x in positions]
     for i in indexes:
         del items[i]  # ascending positions while deleting
+
+
+class Conn:
+    def __init__(self, environ, start_response):
+        self._environ = environ
+        self._start_response = start_response
+
+
+def capture(request, status, headers, exc_info=None):
+    request._start_response(status, headers, exc_info)  # the stored server callback called from package code
